@@ -7,14 +7,14 @@
 using namespace v;
 template <typename T> static rc::Gen<T> UNI(T lo, T hi) { return rc::gen::resize(100, rc::gen::inRange<T>(lo, hi)); }
 
-enum { L_GOOD, L_DUPKID, L_NOKID, L_BAD, L_MIXED, L_EC, L_NONJSON, L_EMPTYKEYS, O_GET, O_FIND, O_FREE, O_FREE_BAD, O_FREE_ALL, O_ERR_CLEAR, O_FREE_MID, O_FIND_DUP, O_N };
-static const char *ON[] = {"load-good", "load-good-dupkid", "load-good-nokid", "load-bad", "load-mixed(good,bad,good)", "load-ec", "load-nonjson", "load-empty-keys", "get", "find", "free", "free-bad", "free-all", "error-clear", "free-mid", "find-dup"};
+enum { L_GOOD, L_DUPKID, L_NOKID, L_BAD, L_MIXED, L_EC, L_NONJSON, L_EMPTYKEYS, O_GET, O_FIND, O_FREE, O_FREE_BAD, O_FREE_ALL, O_ERR_CLEAR, O_FREE_MID, O_FIND_DUP, L_BADKEY, O_N };   // L_BADKEY (appended): keys that fail half-way through their construction
+static const char *ON[] = {"load-good", "load-good-dupkid", "load-good-nokid", "load-bad", "load-mixed(good,bad,good)", "load-ec", "load-nonjson", "load-empty-keys", "get", "find", "free", "free-bad", "free-all", "error-clear", "free-mid", "find-dup", "load-half-built-bad-key"};
 struct Op { int k; int a; };
 
 struct MItem { std::string tag, kid; bool bad; };
 struct Model { std::vector<MItem> items; int set_error = 0; };
 
-static std::string EC_JWK_X, EC_JWK_Y;
+static std::string EC_JWK_X, EC_JWK_Y, RSA_JWK_N;
 static int g_counter = 0;
 
 static std::string oct_jwk(const std::string &tag, const std::string &kid, bool bad) {
@@ -80,6 +80,12 @@ static std::string run_seq(const std::vector<Op> &ops, bool sparse = false) {
       if (do_load(set, d, o.a) != set) bad = "load-returned-other-set"; m.items.push_back({tag + "a", tag + "a", false}); m.items.push_back({"kid:dup", "dup", true}); m.items.push_back({tag + "c", tag + "c", false}); break; }
     case L_EC: { std::string d = "{\"kty\":\"EC\",\"crv\":\"P-256\",\"x\":\"" + EC_JWK_X + "\",\"y\":\"" + EC_JWK_Y + "\",\"kid\":\"ec" + tag + "\"}";
       if (do_load(set, d, o.a) != set) bad = "load-returned-other-set"; m.items.push_back({"kid:ec" + tag, "ec" + tag, false}); break; }
+    case L_BADKEY: {   // one member decodes, the next does not: whatever was built for the first must be released with the item
+      static const char *shapes[] = {"{\"kty\":\"EC\",\"crv\":\"P-256\",\"x\":\"%X\",\"y\":\"A\",\"kid\":\"%K\"}", "{\"kty\":\"EC\",\"crv\":\"P-256\",\"x\":\"\",\"y\":\"%Y\",\"kid\":\"%K\"}", "{\"kty\":\"RSA\",\"n\":\"%N\",\"e\":\"A\",\"kid\":\"%K\"}",
+                                     "{\"kty\":\"RSA\",\"n\":\"%N\",\"e\":\"AQAB\",\"d\":\"AAAA\",\"p\":\"!\",\"kid\":\"%K\"}", "{\"kty\":\"OKP\",\"crv\":\"Ed25519\",\"x\":\"A\",\"kid\":\"%K\"}", "{\"kty\":\"EC\",\"crv\":\"P-256\",\"x\":\"%X\",\"y\":\"%Y\",\"d\":\"A\",\"kid\":\"%K\"}"};
+      std::string d = shapes[(o.a / 3) % 6]; auto rep = [&](const char *k, const std::string &v) { size_t p = d.find(k); if (p != std::string::npos) d.replace(p, 2, v); };
+      rep("%X", EC_JWK_X); rep("%Y", EC_JWK_Y); rep("%N", RSA_JWK_N); rep("%K", "bk" + tag);
+      if (do_load(set, d, o.a) != set) bad = "load-returned-other-set"; m.items.push_back({"kid:bk" + tag, "bk" + tag, true}); break; }
     case L_NONJSON: { if (do_load(set, "{\"keys\": [ nope", o.a) != set) bad = "load-returned-other-set"; m.set_error = 1; break; }
     case L_EMPTYKEYS: { if (do_load(set, "{\"keys\":[]}", o.a) != set) bad = "load-returned-other-set"; break; }
     case O_GET: { size_t idx = o.a % 5 == 0 ? 0 : o.a % 5 == 1 ? cnt / 2 : o.a % 5 == 2 ? (cnt ? cnt - 1 : 0) : o.a % 5 == 3 ? cnt : cnt + 7;
@@ -108,8 +114,9 @@ static std::string run_seq(const std::vector<Op> &ops, bool sparse = false) {
 }
 
 static const std::vector<Op> *CUR = nullptr;
+static bool G_RECYCLE = false;
 static std::string case_json(const std::vector<Op> &ops) {
-  std::string s = std::string("{\"provider\":\"") + jwt_get_crypto_ops() + "\",\"ops\":["; for (size_t i = 0; i < ops.size(); i++) s += (i ? "," : "") + std::string("[") + std::to_string(ops[i].k) + "," + std::to_string(ops[i].a) + "]";
+  std::string s = std::string("{\"provider\":\"") + jwt_get_crypto_ops() + "\",\"recycling_allocator\":" + (G_RECYCLE ? "true" : "false") + ",\"ops\":["; for (size_t i = 0; i < ops.size(); i++) s += (i ? "," : "") + std::string("[") + std::to_string(ops[i].k) + "," + std::to_string(ops[i].a) + "]";
   s += "],\"readable\":["; for (size_t i = 0; i < ops.size(); i++) s += (i ? "," : "") + jstr(std::string(ON[ops[i].k % O_N]) + "(" + std::to_string(ops[i].a) + ")");
   return s + "],\"trace\":" + jstr(TRACE) + "}";
 }
@@ -159,17 +166,22 @@ static void flush_batch() {
 
 int main(int argc, char **argv) {
   Args a = parse_args(argc, argv); g_self = argv[0]; g_tmp = a.out.empty() ? std::string("/tmp/c16-") + std::to_string(getpid()) : a.out;
-  { KeySpec ec = load_fixture("ec_p256"); EC_JWK_X = b64u_enc(pkey_bn(ec.pkey, OSSL_PKEY_PARAM_EC_PUB_X, 32)); EC_JWK_Y = b64u_enc(pkey_bn(ec.pkey, OSSL_PKEY_PARAM_EC_PUB_Y, 32)); EVP_PKEY_free(ec.pkey); }
+  { KeySpec ec = load_fixture("ec_p256"); EC_JWK_X = b64u_enc(pkey_bn(ec.pkey, OSSL_PKEY_PARAM_EC_PUB_X, 32)); EC_JWK_Y = b64u_enc(pkey_bn(ec.pkey, OSSL_PKEY_PARAM_EC_PUB_Y, 32)); EVP_PKEY_free(ec.pkey); KeySpec rsa = load_fixture("rsa_2048"); RSA_JWK_N = b64u_enc(pkey_bn(rsa.pkey, OSSL_PKEY_PARAM_RSA_N)); EVP_PKEY_free(rsa.pkey); }
   cur_case() = [] { return CUR ? case_json(*CUR) : std::string("{}"); };
   Stats &st = stats();
   // keys are parsed by the OpenSSL code under either provider, but they are released through the ACTIVE provider: odd workers run under GnuTLS
   { int prov = a.kv.count("prov") ? atoi(a.kv["prov"].c_str()) : (a.worker & 1); set_provider(prov); st.extra["provider_of_worker0"] = jstr(prov_name(a.worker & 1)); st.cls(std::string("worker-under-") + prov_name(prov)); }
   const char *ao = getenv("ASAN_OPTIONS"); LEAKCHK = ao && strstr(ao, "detect_leaks=1");
+  // every fourth worker runs with an allocator that hands a freed block to the next request of the same size: each sequence's set (and
+  // its items) then live where those of the sequence before lived, so anything remembered by address across sets is read back wrong.
+  // (No leak accounting on these workers: recycled blocks stay reachable.)
+  if ((a.worker & 3) == 3 && a.replay.empty()) { G_RECYCLE = true; jwt_set_alloc(recycle_malloc, recycle_free); LEAKCHK = false; st.cls("worker-with-recycling-allocator"); }
   // warm up one-time allocations of the crypto library so they are not attributed to a sequence
   { std::vector<Op> w = {{L_EC, 0}, {L_GOOD, 1}, {L_NONJSON, 2}}; run_seq(w); if (LEAKCHK) __lsan_do_recoverable_leak_check(); }
   if (!a.replay.empty()) {
     J j = J::parse(read_file(a.replay)); if (!j) return 2;
     { const char *pn = json_string_value(json_object_get(j.p, "provider")); if (pn) jwt_set_crypto_ops(pn); }
+    if (json_is_true(json_object_get(j.p, "recycling_allocator"))) { G_RECYCLE = true; jwt_set_alloc(recycle_malloc, recycle_free); LEAKCHK = false; std::vector<Op> w = {{L_MIXED, 0}, {L_GOOD, 1}, {O_FIND, 0}, {O_GET, 2}}; run_seq(w); }   // a set lived here before
     std::vector<Op> ops; size_t i; json_t *e; json_array_foreach(json_object_get(j.p, "ops"), i, e) ops.push_back({(int)json_integer_value(json_array_get(e, 0)), (int)json_integer_value(json_array_get(e, 1))});
     g_single = true; std::string why; bool ok = one(ops, false, &why); if (!ok) fprintf(stderr, "replay: %s | %s\n", why.c_str(), TRACE.c_str());
     return ok ? 0 : 3;
